@@ -286,7 +286,11 @@ class Paraxial:
             # first surface to the object plane to find its height there
             z_inv = surfaces.positions
             y_obj = y[-1] + u[-1] * (z_inv[-1] - z_inv[-2])
-            u1 = 0.1 * max_field / y_obj
+            # the forward ray below is the mirror image (-y) of the reversed
+            # one: aim the reversed ray at -max_field so that the chief ray
+            # starts at +max_field, where the real ray generator puts the
+            # object point
+            u1 = -0.1 * max_field / y_obj
         elif self.optic.field_type == 'angle':
             u1 = 0.1 * np.tan(np.deg2rad(max_field)) / u[-1]
 
@@ -330,7 +334,7 @@ class Paraxial:
             z0 = np.ones_like(y1) * z
         else:
             if self.optic.field_type == 'object_height':
-                y = -field_y
+                y = field_y
                 z = obj.geometry.cs.z
 
                 y0 = np.ones_like(y1) * y
